@@ -364,7 +364,8 @@ def eval_epsilon(spec, sites_phys, t):
 #   {"leaf": "gauge", "c","q"}
 #   {"op": "+|-|*|/|**", "l": node, "r": node}
 # A node may carry "share": label; equal labels map to the *same* Parameter object.
-def build_tree(node, ctx, shared=None):
+def build_tree(node, ctx, shared=None, registry=None):
+    """registry: optional list collecting (leaf node, the operand object the user holds for it)."""
     import operator
 
     import tdgl
@@ -374,6 +375,8 @@ def build_tree(node, ctx, shared=None):
         shared = {}
     lab = node.get("share")
     if lab is not None and lab in shared:
+        if registry is not None and "leaf" in node:
+            registry.append((node, shared[lab]))
         return shared[lab]
     if "leaf" in node:
         k = node["leaf"]
@@ -423,9 +426,11 @@ def build_tree(node, ctx, shared=None):
             raise ValueError(k)
     else:
         ops = {"+": operator.add, "-": operator.sub, "*": operator.mul, "/": operator.truediv, "**": operator.pow}
-        l = build_tree(node["l"], ctx, shared)
-        r = build_tree(node["r"], ctx, shared)
+        l = build_tree(node["l"], ctx, shared, registry)
+        r = build_tree(node["r"], ctx, shared, registry)
         obj = ops[node["op"]](l, r)
+    if registry is not None and "leaf" in node:
+        registry.append((node, obj))
     if lab is not None:
         shared[lab] = obj
     return obj
